@@ -239,9 +239,11 @@ class PluginGroup(Generic[T], metaclass=PluginGroupMeta):
 
     def _is_foreign(self, key) -> bool:
         """Return whether the key explicitly refers to a plugin of another group."""
-        group = getattr(key, "group", None)  # a plugin reference?
-        if not isinstance(group, str):  # maybe a plugin class -> look at its info
+        if isinstance(key, type):
+            # a plugin class -> look at its info (not at attributes of its own)
             group = getattr(getattr(key, "Plugin", None), "group", None)
+        else:
+            group = getattr(key, "group", None)  # a plugin reference?
         return isinstance(group, str) and group != "" and group != self.name
 
     def __contains__(self, key) -> bool:
